@@ -32,6 +32,9 @@ type genType struct {
 	Required  []string // proto2 required fields (struct tag "...,req,...")
 	ReqMsg    map[string]bool // required fields of message type
 	Zero      map[string]string // Go zero literal per schema field
+	IsIface   map[string]bool   // oneof fields (interface typed)
+	MapOfMsg  map[string]bool   // maps whose values are messages (pointers)
+	SetCond   map[string]string // Go condition "field %s holds a set value" (presence as the reference runtime sees it)
 	RepBytes  []string          // repeated bytes fields
 	StrPtrs   []string          // optional string fields held by pointer (proto2 / proto3 optional)
 	Tags      []string // field numbers the generated Unmarshal dispatches on (schema fields, oneof members, extensions)
@@ -193,6 +196,26 @@ func scanGenTypes(files map[string][]byte) (string, []*genType, error) {
 					g.Zero = map[string]string{}
 				}
 				g.Zero[fn.Name] = zeroLit(f.Type)
+				if g.SetCond == nil {
+					g.SetCond = map[string]string{}
+				}
+				tag := ""
+				if f.Tag != nil {
+					tag = f.Tag.Value
+				}
+				g.SetCond[fn.Name] = setCond(f.Type, tag, fn.Name)
+				if g.IsIface == nil {
+					g.IsIface = map[string]bool{}
+					g.MapOfMsg = map[string]bool{}
+				}
+				if id, ok := f.Type.(*ast.Ident); ok && strings.HasPrefix(id.Name, "is") {
+					g.IsIface[fn.Name] = true
+				}
+				if mt, ok := f.Type.(*ast.MapType); ok {
+					if _, ok := mt.Value.(*ast.StarExpr); ok {
+						g.MapOfMsg[fn.Name] = true
+					}
+				}
 				if at, ok := f.Type.(*ast.ArrayType); ok {
 					if in, ok := at.Elt.(*ast.ArrayType); ok {
 						if id, ok := in.Elt.(*ast.Ident); ok && (id.Name == "byte" || id.Name == "uint8") {
@@ -263,6 +286,37 @@ func switchTagsOf(body *ast.BlockStmt) []string {
 		return false
 	})
 	return out
+}
+
+// setCond: when the reference runtime considers field name (of Go type e, struct tag tag) set.
+func setCond(e ast.Expr, tag, name string) string {
+	m := "m." + name
+	switch t := e.(type) {
+	case *ast.StarExpr, *ast.InterfaceType:
+		return m + " != nil"
+	case *ast.MapType:
+		return "len(" + m + ") > 0"
+	case *ast.ArrayType:
+		if id, ok := t.Elt.(*ast.Ident); ok && (id.Name == "byte" || id.Name == "uint8") {
+			// bytes: explicit presence (nil vs non-nil) in proto2 and for proto3 optional fields
+			if !strings.Contains(tag, ",proto3") || strings.Contains(tag, ",oneof") {
+				return m + " != nil"
+			}
+		}
+		return "len(" + m + ") > 0"
+	case *ast.Ident:
+		switch t.Name {
+		case "string":
+			return m + ` != ""`
+		case "bool":
+			return m
+		}
+		if strings.HasPrefix(t.Name, "is") {
+			return m + " != nil"
+		}
+		return m + " != 0"
+	}
+	return m + " != 0"
 }
 
 // zeroLit: the Go zero literal of a generated message field's type.
@@ -402,6 +456,79 @@ func lemma_c04m_%[1]s_%[2]s(m *%[1]s, src *%[1]s) {
 			fmt.Fprintf(&c, "\n//@ func lemma_c04_%s_%s(m *%s, src *%s)\n//@   harness\n//@   inlines Size, MarshalTo, Marshal\n//@   abstracts vlen\n//@   bounded %d field %s alone (every other field zero except proto2 required fields, which are arbitrary); repeated fields with at most %d elements, maps with at most 1 entry\n", t.Name, f, t.Name, t.Name, listBound+1, f, listBound)
 		}
 	}
+	// C05 (presence only): nothing unset is emitted, nothing set is dropped.
+	for _, t := range types {
+		noext := ""
+		for _, e := range t.MsgExts {
+			noext += fmt.Sprintf("\tgocv_assume(!gocv_extSlot(m, %s).has) // unset; what GetExtension returns for it is the runtime's business\n", e)
+		}
+		if len(t.Required) == 0 {
+			fmt.Fprintf(&h, `
+func lemma_c05z_%[1]s(m *%[1]s) {
+	gocv_assume(m != nil)
+	var z %[1]s
+	*m = z
+%[2]s	gocv_assert(m.Size() == 0, "unset-fields-emit-nothing")
+}
+`, t.Name, noext)
+			fmt.Fprintf(&c, "\n//@ func lemma_c05z_%s(m *%s)\n//@   harness\n//@   inlines Size\n//@   abstracts vlen\n//@   bounded %d the message with every field unset (no extensions)\n", t.Name, t.Name, listBound+1)
+		}
+		req := ""
+		for _, r := range t.Required {
+			req += fmt.Sprintf("\tm.%[1]s = src.%[1]s\n", r)
+		}
+		reset := ""
+		if t.Cache != "" {
+			reset = fmt.Sprintf("\tm.%s = 0\n", t.Cache)
+		}
+		for _, e := range t.MsgExts {
+			fmt.Fprintf(&h, `
+func lemma_c05x_%[1]s_%[2]s(m *%[1]s, src *%[1]s) {
+	gocv_assume(m != nil && src != nil && m != src)
+	var z %[1]s
+	*m = z
+%[3]s	gocv_assume(!gocv_extSlot(m, %[2]s).has) // the extension is not set
+	if v := gocv_extSlot(m, %[2]s).val; v != nil {
+		_, ok := v.(csproto.Sizer)
+		gocv_assume(ok)
+	}
+	s1 := m.Size() // GetExtension may still return a non-nil default (google v2: a typed nil message)
+%[4]s	gocv_extSlot(m, %[2]s).val = nil
+	s0 := m.Size()
+	gocv_assert(s1 == s0, "unset-extension-emits-nothing")
+}
+`, t.Name, e, req, reset)
+			fmt.Fprintf(&c, "\n//@ func lemma_c05x_%s_%s(m *%s, src *%s)\n//@   harness\n//@   inlines Size\n//@   abstracts vlen\n//@   bounded %d extension %s unset, proto2 required fields arbitrary, every other field zero\n", t.Name, e, t.Name, t.Name, listBound+1, e)
+		}
+		for _, f := range t.Fields {
+			if isIn(t.Required, f) || t.IsIface[f] {
+				continue // required fields are always set; oneof interfaces: the set of wrapper types is not enumerated here
+			}
+			if t.MapOfMsg[f] {
+				continue // a nil message as map value: what the reference emits is not modelled
+			}
+			bound := ""
+			switch {
+			case isIn(t.Slices, f):
+				bound = fmt.Sprintf("\tgocv_assume(len(m.%s) <= %d)\n", f, listBound)
+			case isIn(t.Maps, f):
+				bound = fmt.Sprintf("\tgocv_assume(len(m.%s) <= 1)\n", f)
+			}
+			fmt.Fprintf(&h, `
+func lemma_c05p_%[1]s_%[2]s(m *%[1]s, src *%[1]s) {
+	gocv_assume(m != nil && src != nil && m != src)
+	var z %[1]s
+	*m = z
+%[6]s%[5]s	s0 := m.Size() // field %[2]s unset
+%[7]s	m.%[2]s = src.%[2]s
+%[3]s	gocv_assume(%[4]s) // the field is set, as the reference runtime sees presence
+	s1 := m.Size()
+	gocv_assert(s1 > s0, "presence-shows-in-the-encoding")
+}
+`, t.Name, f, bound, t.SetCond[f], noext, req, reset)
+			fmt.Fprintf(&c, "\n//@ func lemma_c05p_%s_%s(m *%s, src *%s)\n//@   harness\n//@   inlines Size\n//@   abstracts vlen\n//@   bounded %d field %s unset versus set (any set value), proto2 required fields arbitrary, every other field zero; repeated fields with at most %d elements, maps with at most 1 entry\n", t.Name, f, t.Name, t.Name, listBound+1, f, listBound)
+		}
+	}
 	// C09: what Size reports does not depend on what the size cache holds (the cache is also
 	// written by the protobuf runtime and survives field assignments: any int32 may be there).
 	for _, t := range types {
@@ -415,12 +542,16 @@ func lemma_c04m_%[1]s_%[2]s(m *%[1]s, src *%[1]s) {
 		for _, e := range t.MsgExts {
 			pre += fmt.Sprintf("\tif v := gocv_extSlot(m, %s).val; v != nil {\n\t\t_, ok := v.(csproto.Sizer)\n\t\tgocv_assume(ok)\n\t}\n", e)
 		}
+		unkset := ""
+		if t.Unknown != "" {
+			unkset = fmt.Sprintf("\tm.%[1]s = src.%[1]s // arbitrary unknown-field bytes\n", t.Unknown)
+		}
 		fmt.Fprintf(&h, `
 func lemma_c09_%[1]s(m *%[1]s, src *%[1]s, c int32) {
 	gocv_assume(m != nil && src != nil && m != src)
 	var z %[1]s
 	*m = z
-%[3]s	m.%[2]s = c
+%[3]s%[4]s	m.%[2]s = c
 	s1 := m.Size()
 	m.%[2]s = 0
 	s2 := m.Size()
@@ -431,14 +562,14 @@ func lemma_c09s_%[1]s(m *%[1]s, src *%[1]s) {
 	gocv_assume(m != nil && src != nil && m != src)
 	var z %[1]s
 	*m = z
-%[3]s	s1 := m.Size() // computes and stores the cache
+%[3]s%[4]s	s1 := m.Size() // computes and stores the cache
 	gocv_assume(int(int32(s1)) == s1) // protobuf: a message is smaller than 2 GiB
 	s2 := m.Size() // nothing was mutated in between: the stored value must be the size
 	gocv_assert(s1 == s2, "size-stable-without-mutation")
 }
-`, t.Name, t.Cache, pre)
-		fmt.Fprintf(&c, "\n//@ func lemma_c09s_%s(m *%s, src *%s)\n//@   harness\n//@   inlines Size\n//@   abstracts vlen\n//@   bounded %d every field zero except proto2 required fields (arbitrary)\n", t.Name, t.Name, t.Name, listBound+1)
-		fmt.Fprintf(&c, "\n//@ func lemma_c09_%s(m *%s, src *%s, c int32)\n//@   harness\n//@   inlines Size\n//@   abstracts vlen\n//@   bounded %d every field zero except proto2 required fields (arbitrary); the size cache arbitrary\n", t.Name, t.Name, t.Name, listBound+1)
+`, t.Name, t.Cache, pre, unkset)
+		fmt.Fprintf(&c, "\n//@ func lemma_c09s_%s(m *%s, src *%s)\n//@   harness\n//@   inlines Size\n//@   abstracts vlen\n//@   bounded %d every field zero except proto2 required fields and the unknown-field bytes (arbitrary)\n", t.Name, t.Name, t.Name, listBound+1)
+		fmt.Fprintf(&c, "\n//@ func lemma_c09_%s(m *%s, src *%s, c int32)\n//@   harness\n//@   inlines Size\n//@   abstracts vlen\n//@   bounded %d every field zero except proto2 required fields and the unknown-field bytes (arbitrary); the size cache arbitrary\n", t.Name, t.Name, t.Name, listBound+1)
 	}
 	// C17 (marshal direction): a message with an unset required field is rejected.
 	for _, t := range types {
